@@ -5,6 +5,10 @@ package rt
 import (
 	"fmt"
 
+	"github.com/sahandsafizadeh/qeep/component/layers"
+	"github.com/sahandsafizadeh/qeep/component/layers/activations"
+	"github.com/sahandsafizadeh/qeep/component/losses"
+
 	"github.com/sahandsafizadeh/qeep/tensor"
 	"qmc/ref"
 )
@@ -198,6 +202,37 @@ func Apply(op ref.Op, in []tensor.Tensor) (tensor.Tensor, error) {
 		return x.Patch(Ranges(op.Index), in[1])
 	case "Concat":
 		return tensor.Concat(append([]tensor.Tensor(nil), in...), op.Dim)
+	case "Relu":
+		return activations.NewRelu().Forward(x)
+	case "LeakyRelu":
+		return activations.NewLeakyRelu(&activations.LeakyReluConfig{M: op.F}).Forward(x)
+	case "Sigmoid":
+		return activations.NewSigmoid().Forward(x)
+	case "TanhAct":
+		return activations.NewTanh().Forward(x)
+	case "Softmax":
+		sm, err := activations.NewSoftmax(&activations.SoftmaxConfig{Dim: op.Dim})
+		if err != nil {
+			return nil, err
+		}
+		return sm.Forward(x)
+	case "MSE":
+		return losses.NewMSE().Compute(x, in[1])
+	case "BCE":
+		return losses.NewBCE().Compute(x, in[1])
+	case "CE":
+		return losses.NewCE().Compute(x, in[1])
+	case "FC":
+		// a layer whose parameters are the given tensors (replaced through Weights())
+		sh := in[1].Shape()
+		fc, err := layers.NewFC(&layers.FCConfig{Inputs: x.Shape()[1], Outputs: sh[0]})
+		if err != nil {
+			return nil, err
+		}
+		ws := fc.Weights()
+		*ws[0].Value = in[1]
+		*ws[1].Value = in[2]
+		return fc.Forward(x)
 	}
 	panic("rt.Apply: unknown op " + op.K)
 }
